@@ -2,6 +2,8 @@ package rules
 
 import (
 	"fmt"
+
+	"golang.org/x/tools/go/ssa"
 	"regexp"
 	"sort"
 	"strings"
@@ -86,6 +88,133 @@ func SiblingAgreement(c *Ctx, cfg string) {
 			} else {
 				c.R.Ok("SH-SIBLING", s.name, site, p.FnPos(fn), fmt.Sprintf("%d branch conditions, %d shared by all", len(s.conds), len(keys)), len(s.conds) > 0)
 			}
+		}
+	}
+}
+
+// SiblingSkeletons compares, between the BN256 and BN254 packages, the call
+// skeleton (resolved callee + canonical arguments) of every method the two
+// packages define on the same type.
+func SiblingSkeletons(c *Ctx, cfg string, report bool) map[string][2][]string {
+	p := c.Prog(cfg)
+	out := map[string][2][]string{}
+	if p == nil {
+		return out
+	}
+	skel := func(name string) ([]string, bool) {
+		fn := p.Fn(name)
+		if fn == nil || len(fn.Blocks) == 0 {
+			return nil, false
+		}
+		d := apo.NewDescriber(fn)
+		set := map[string]bool{}
+		for _, b := range fn.Blocks {
+			for _, in := range b.Instrs {
+				switch x := in.(type) {
+				case ssa.CallInstruction:
+					if _, isB := x.Common().Value.(*ssa.Builtin); isB {
+						continue
+					}
+					set[normSibling(d.CallDesc(x.Common()))] = true
+				case *ssa.Store:
+					set[normSibling("store "+d.Val(x.Addr)+" = "+d.Val(x.Val))] = true
+				}
+			}
+		}
+		var l []string
+		for s := range set {
+			l = append(l, s)
+		}
+		sort.Strings(l)
+		return l, true
+	}
+	for _, t := range []string{"curvePoint", "twistPoint", "gfP2", "gfP6", "gfP12"} {
+		for _, fn := range p.ModuleFuncs() {
+			n := shortFn(fn)
+			pre := "(*pairing/bn256." + t + ")."
+			if !strings.HasPrefix(n, pre) {
+				continue
+			}
+			m := strings.TrimPrefix(n, pre)
+			a, ok1 := skel(n)
+			b, ok2 := skel("(*pairing/bn254." + t + ")." + m)
+			if !ok1 || !ok2 {
+				continue
+			}
+			out[t+"."+m] = [2][]string{a, b}
+		}
+	}
+	return out
+}
+
+// siblingExceptions: methods whose BN256 and BN254 versions legitimately
+// differ (one line of reason each, confirmed by reading).
+var siblingExceptions = map[string]string{
+	"curvePoint.Mul":        "BN254 multiplies with a GLV lattice decomposition, BN256 with plain double-and-add",
+	"curvePoint.String":     "formatting only",
+	"gfP2.String":           "formatting only",
+	"gfP6.String":           "formatting only",
+	"gfP2.MulXi":            "different non-residue xi of the two curves (i+3 vs 9+i)",
+	"twistPoint.IsOnCurve":  "BN254 additionally checks membership of the order-q subgroup",
+	"twistPoint.MakeAffine": "BN254 normalises a clone and copies it back",
+}
+
+// SiblingSkeletonCheck (SH-SIBLING): BN254 is a port of BN256; every method
+// the two packages define on the same type must make the same calls with the
+// same canonical arguments and the same stores (after normalising type
+// names), except the named, explained differences. A deviant sibling is
+// reported with the calls only one side makes (either side may be the wrong
+// one: triage by reading).
+func SiblingSkeletonCheck(c *Ctx, cfg string) {
+	p := c.Prog(cfg)
+	if p == nil {
+		return
+	}
+	sk := SiblingSkeletons(c, cfg, true)
+	var keys []string
+	for k := range sk {
+		keys = append(keys, k)
+	}
+	sort.Strings(keys)
+	if len(keys) < 60 {
+		c.R.Fatalf("SH-SIBLING matched %d sibling pairs, expected at least 60", len(keys))
+	}
+	for _, k := range keys {
+		a, b := sk[k][0], sk[k][1]
+		am, bm := map[string]bool{}, map[string]bool{}
+		for _, x := range a {
+			am[x] = true
+		}
+		for _, x := range b {
+			bm[x] = true
+		}
+		var da, db []string
+		for _, x := range a {
+			if !bm[x] {
+				da = append(da, x)
+			}
+		}
+		for _, x := range b {
+			if !am[x] {
+				db = append(db, x)
+			}
+		}
+		name := "pairing/bn256|bn254." + k
+		site := "BN256 and BN254 versions make the same calls and stores"
+		switch {
+		case len(da)+len(db) == 0:
+			c.R.Ok("SH-SIBLING", name, site, "", fmt.Sprintf("%d calls/stores identical", len(a)), len(a) > 0)
+		case siblingExceptions[k] != "":
+			c.R.Ok("SH-SIBLING", name, site+" (excepted)", "", siblingExceptions[k], false)
+		default:
+			cut := func(l []string) string {
+				s := strings.Join(l, "; ")
+				if len(s) > 300 {
+					s = s[:300] + "…"
+				}
+				return s
+			}
+			c.R.Bad("SH-SIBLING", name, site, "", "only BN256: ["+cut(da)+"] only BN254: ["+cut(db)+"]")
 		}
 	}
 }
